@@ -82,6 +82,15 @@ pub fn gen_solver<VS: HSet>(sink: &mut Sink, prop: &str, thorough: bool, seed: u
                 chosen = Some(e);
                 break;
             }
+            // a rejected sample is still a run of the real code: keep it if any oracle objected
+            if !e.failures.is_empty() {
+                for (p, _) in &e.failures {
+                    if *p != prop {
+                        sink.tag(&format!("oracle_failure_of_other_property_{}", p), 1);
+                    }
+                }
+                sink.push(eval_to_case(e, prop));
+            }
         }
         let e = chosen.unwrap();
         for (p, w) in &e.failures {
@@ -192,8 +201,10 @@ pub fn gen_c13(sink: &mut Sink, thorough: bool, seed: u64, debug: bool) {
         sink.push(eval_to_case(base_eval, "C13"));
         for (k, ev) in calls.iter().enumerate() {
             let mut kinds = vec![Fault::Fail(k)];
-            if matches!(ev, Ev::Choose { .. }) {
-                kinds.push(Fault::OutOfSet(k));
+            if let Ev::Choose { set_m, .. } = ev {
+                if set_m != "u:u" {
+                    kinds.push(Fault::OutOfSet(k)); // (the full set has nothing outside it)
+                }
             }
             for f in kinds {
                 let r = SolveReq { debug, root: b.root.clone(), rv: b.rv, reg: b.reg.clone(), strat: b.strat.clone(), fault: f.clone() };
